@@ -13,7 +13,7 @@ Extraction "model.ml" Cli.run Cli.run_history Cli.last_ok Cli.spec_run Cli.spec_
   Rules.model_reported Rules.lsat Rules.csat Rules.compl_ok Rules.disp_fuel Rules.wf_form Graph.targets
   Report.build_report Report.spec_report Report.ids Report.wf_et Report.report_ids
   Pipeline.run_entry Pipeline.as_coded Pipeline.spec_trace
-  Escape.display Escape.rendered Escape.paste_message Escape.message_variables Escape.paste_name Escape.package_name
+  Escape.display Escape.rendered Escape.paste_message Escape.message_variables Escape.paste_name Escape.package_name Escape.pattern_literal Escape.string_set_literal
   Lexical.result_location Lexical.dec_n
   Names.var_name Names.plural Names.declared
   JsonLd.flatten JsonLd.denote
